@@ -101,9 +101,23 @@ fn check_line(line: &Line, acc: &mut Acc) {
         }
     }
     // (ii) inside a file between two other records ("with any line terminator": LF, CRLF, lone CR, blank lines between)
+    // the class line in front: an unrelated class and - for a method qualified with a class - that very class (a method
+    // qualified with the name of its own class is still split at the last dot)
+    let own: Option<Vec<u8>> = match line {
+        Line::Method { cls: Some(c), .. } => Some(format!("{} -> q:", c).into_bytes()),
+        _ => None,
+    };
+    let fronts: Vec<(&[u8], &str)> = match &own {
+        Some(o) => vec![(&b"p.Q -> q:"[..], "p.Q"), (&o[..], "")],
+        None => vec![(&b"p.Q -> q:"[..], "p.Q")],
+    };
+    for (front, front_orig) in fronts {
     for term in [&b"\n"[..], b"\r\n", b"\r", b"\n\n"] {
+        if front_orig.is_empty() && term != b"\n" {
+            continue;
+        }
         buf.clear();
-        buf.extend_from_slice(b"p.Q -> q:");
+        buf.extend_from_slice(front);
         buf.extend_from_slice(term);
         buf.extend_from_slice(&printed);
         buf.extend_from_slice(term);
@@ -125,7 +139,7 @@ fn check_line(line: &Line, acc: &mut Acc) {
                 return Err(format!("the lines after it were disturbed: {:?}", &items[3..]));
             }
             match (&items[0], &items[2]) {
-                (Ok(ProguardRecord::Class { original: "p.Q", obfuscated: "q" }), Ok(ProguardRecord::Field { ty: "int", original: "after", obfuscated: "z" })) => Ok(()),
+                (Ok(ProguardRecord::Class { original, obfuscated: "q" }), Ok(ProguardRecord::Field { ty: "int", original: "after", obfuscated: "z" })) if front_orig.is_empty() || *original == front_orig => Ok(()),
                 other => Err(format!("neighbours disturbed: {:?}", other)),
             }
         });
@@ -134,6 +148,7 @@ fn check_line(line: &Line, acc: &mut Acc) {
             Ok(Err(d)) => acc.violation(format!("wellformed:in-file:{}", kind_of(line)), printed.len(), || (format!("in file {:?}: {}", esc(&buf), d), case("inside a file", d.clone()))),
             Err(p) => acc.violation(format!("panic:{}", panic_site(&p)), printed.len(), || (p.clone(), case("inside a file", p.clone()))),
         }
+    }
     }
     acc.outcome(h64(&printed), true);
 }
@@ -518,7 +533,7 @@ fn line_space(thorough: bool) -> Vec<Line> {
     }
     // file names with backslashes (Windows paths; a trailing or doubled backslash must not be read as an escape), braces,
     // and the characters of the JSON frame itself except the closing quote
-    for n in ["S.kt", "R8$$SyntheticClass", "a b.java", "\u{e9}.kt", "", "src\\", "C:\\dir\\F.java", "a\\\\", "\\", "a}b", "{x}", "a,b:c", "a\\n", "\u{e9}\\"] {
+    for n in ["S.kt", "R8$$SyntheticClass", "a b.java", "\u{e9}.kt", "", "src\\", "C:\\dir\\F.java", "a\\\\", "\\", "a}b", "{x}", "a,b:c", "a\\n", "\u{e9}\\", " S.kt", "S.kt ", " ", "\tS.kt", "S.kt\u{a0}"] {
         v.push(Line::SourceFile(n));
     }
     // fields
